@@ -46,7 +46,12 @@ class Command(SerializableMixin, DictableMixin):
         self.argument = match.group(2).decode('utf-8', errors='surrogateescape')
 
     def to_bytes(self):
-        return '{0} {1}\r\n'.format(self.name, self.argument).encode(
+        line = '{0} {1}'.format(self.name, self.argument)
+
+        if '\r' in line or '\n' in line:
+            raise ProtocolError('Illegal line break in command.')
+
+        return '{0}\r\n'.format(line).encode(
             'utf-8', errors='surrogateescape')
 
     def to_dict(self):
